@@ -26,7 +26,7 @@ DEFAULT_FEATURES = {
     "refined": 4, "cls": 6, "list": 2, "annlist": 3, "tuple": 0, "union": 1, "dependent": 0, "flaky": 0,
     "weights": 0, "nested": 1, "standalone": 1, "unreachable": 1, "plain": 1, "infeasible": 0,
     "max_abstract": 3, "max_classes": 9, "max_fields": 3, "future_annotations": 0, "concrete_start": 0,
-    "base_in_list": 1, "finite": 0, "nested_generic": 0, "nested_list": 0, "deep_chain": 0, "self_ref": 0, "multi_dependent": 0, "abstract_weights": 0, "nested_start": 0, "hollow": 0, "barren": 0, "falsy": 0, "wide_weights": 0, "inherited_ctor": 0, "zero_rules": 0, "union_generic": 0,
+    "base_in_list": 1, "finite": 0, "nested_generic": 0, "nested_list": 0, "deep_chain": 0, "self_ref": 0, "multi_dependent": 0, "abstract_weights": 0, "nested_start": 0, "hollow": 0, "barren": 0, "falsy": 0, "wide_weights": 0, "inherited_ctor": 0, "zero_rules": 0, "union_generic": 0, "same_name": 0,
 }
 
 
@@ -304,6 +304,13 @@ def gen_spec(H: Chooser, feat=None) -> dict:
         classes.append({"name": "U1", "kind": "data", "parent": "U0", "weight": None, "fields": [["f0", ["int"]]]})
         if H.draw(2):
             classes.append({"name": "U2", "kind": "data", "parent": None, "weight": None, "fields": [["f0", ["cls", "A0"]]]})
+    if feat.get("same_name") and H.draw(4) == 0:
+        # two DIFFERENT classes with the same module and qualified name, as a class factory makes them
+        # (geml.grammars.symbolic_regression.make_var returns a new `make_var.<locals>.Var` at every call)
+        a = H.pick(abstracts)
+        flds = [["f0", H.pick([["bool"], ["int"], ["cls", H.pick(abstracts)]])]]
+        for j in range(2):
+            classes.append({"name": f"F{j}", "kind": "data", "parent": a, "weight": None, "fields": [list(x) for x in flds], "factory": "_make_F"})
     if feat.get("zero_rules") and H.draw(4) == 0:
         # a nested abstract type ALL of whose productions are declared with weight zero (nothing to normalise in that rule)
         classes.append({"name": "AZ", "kind": "deco", "parent": H.pick(abstracts), "weight": None, "fields": [], "weight_first": False})
@@ -475,6 +482,7 @@ def render_source(spec) -> str:
     order = [c for c in spec["classes"] if c["kind"] in ("abc", "deco")]
     order += [c for c in spec["classes"] if c["kind"] in ("data", "plain") and c["parent"] is None]
     order += [c for c in spec["classes"] if c["kind"] in ("data", "plain") and c["parent"] is not None]
+    emitted_factories = set()
     for c in order:
         lines = []
         base = c["parent"] or ("ABC" if c["kind"] == "abc" else None)
@@ -504,7 +512,14 @@ def render_source(spec) -> str:
             # a field type that mentions the class itself (or a class defined later) is written as a string annotation
             later = {c["name"]} | {o["name"] for o in order[order.index(c) + 1:]}
             ftxt = [(fn, repr(tt) if _mentions(ft, later) else tt) for (fn, tt), (_, ft) in zip(ftxt, c["fields"])]
-            if c.get("inherit"):
+            if c.get("factory"):
+                if c["factory"] not in emitted_factories:
+                    emitted_factories.add(c["factory"])
+                    lines += [f"def {c['factory']}():", "    @dataclass", f"    class V{bases}:"]
+                    lines += [f"        {fn}: {tt}" for fn, tt in ftxt] or ["        pass"]
+                    lines += ["", "    return V", "", ""]
+                lines += [f"{c['name']} = {c['factory']}()", f"{c['name']}._sim_serial = {c['name']!r}"]
+            elif c.get("inherit"):
                 lines += [f"class {c['name']}{bases}:", "    pass"]  # the typed constructor is the parent's
             elif c["kind"] == "data":
                 lines += ["@dataclass", f"class {c['name']}{bases}:"]
